@@ -368,6 +368,37 @@ def generate(pid, tier, seed):
     return insts
 
 
+def select(insts, cap, seed):
+    """at most `cap` instances, round-robin over families so that every family is represented;
+    within a family the order is shuffled by `seed`"""
+    if len(insts) <= cap:
+        return insts
+    rng = random.Random(seed)
+    def coarse(f):
+        t = f.split("_")
+        if t[0] in ("n2", "n3", "hist", "histfin"):
+            return t[0]
+        if t[0] in ("rcfin", "rcdrop") and len(t) > 2 and t[1] in ("buffered", "child", "parent", "untraced"):
+            return "_".join(t[:1] + t[-1:])
+        return "_".join(t[:2])
+    fam = {}
+    for i in insts:
+        fam.setdefault(coarse(i.family), []).append(i)
+    keys = sorted(fam)
+    for k in keys:
+        rng.shuffle(fam[k])
+    out = []
+    while len(out) < cap:
+        progressed = False
+        for k in keys:
+            if fam[k] and len(out) < cap:
+                out.append(fam[k].pop())
+                progressed = True
+        if not progressed:
+            break
+    return out
+
+
 def write(path, insts):
     with open(path, "w") as f:
         f.write("// generated by lib/l2gen.py: %d instances\n" % len(insts))
